@@ -22,6 +22,7 @@ pub enum Scenario {
 }
 
 impl Scenario {
+    #[allow(dead_code)]
     pub fn engine(&self) -> &'static str {
         match self {
             Scenario::Reg(_) => "regsim",
